@@ -54,7 +54,7 @@ CHECKS = {
             'level and through all six trapping functions; trees with every error/non-error leaf assignment check the '
             'left-most-wins rule at depth.',
             'Trusted: the reference algebra (operators strict, left operand first, literal aborts). Which code a Python '
-            'exception maps to is not demanded. One known finding (#N/A literal directly followed by "/").',
+            'exception maps to is not demanded.',
             'DESIGN.md §5 C08'),
     'C09': ('exhaustive enumeration of identifier-shaped names, host value types, call-site patterns, the documented and '
             'not-yet-supported function lists and unknown names x syntactic positions, through Parser.parse; ' + K3,
